@@ -248,7 +248,7 @@ def canary(base, name, tags, **extra):
                  returns=b.returns, requires=list(b.requires) + list(extra.get("requires", [])),
                  ensures=list(extra.get("ensures", [])), modifies=list(extra.get("modifies", b.modifies)),
                  loops=extra.get("loops", b.loops), tags=tags, pure=b.pure, locals={k: v for k, v in b.locals.items()},
-                 reveal=list(b.reveal), ghost_after=b.ghost_after)
+                 reveal=list(b.reveal), ghost_after=b.ghost_after, aliases=dict(getattr(b, "aliases", {}) or {}))
     CONTRACTS[c.qual] = c
     return c
 
